@@ -95,6 +95,9 @@ def main() -> None:
         for s in cases:
             if not in_domain(kind, s):
                 continue
+            if len(s) > 100 and kind not in ("cpp_wstr", "cpp_str"):
+                # the long strings are about the length limits of C++ literals
+                continue
             if kind.endswith("bytes") and s in seen:
                 continue
             seen.add(s)
